@@ -47,6 +47,34 @@ def section(name, version):
             '[bumpver:file_patterns]\nsetup.cfg =\n    current_version = "{version}"\n' % version).encode()
 
 
+def restyle_section(name, data, style):
+    """The same section in another legal spelling (only the lines of the bumpver sections are touched)."""
+    if style == "plain":
+        return data
+    out = []
+    inside = False
+    for line in data.decode().split("\n"):
+        if line.startswith("["):
+            inside = any(w in line for w in ("bumpver", "pycalver"))
+            out.append(line)
+            continue
+        if not inside or not line.strip():
+            out.append(line)
+            continue
+        if style == "indented" and not line.startswith(" "):
+            line = "  " + line
+        elif style == "tabs" and not line.startswith(" "):
+            line = "\t" + line if name.endswith(".toml") else line
+        elif style == "tight" and " = " in line and not line.startswith(" "):
+            k, v = line.split(" = ", 1)
+            line = k + "=" + v
+        elif style == "quoted_keys" and name.endswith(".toml") and " = " in line and not line.startswith(('"', "'", " ")):
+            k, v = line.split(" = ", 1)
+            line = '"%s" = %s' % (k, v)
+        out.append(line)
+    return "\n".join(out).encode()
+
+
 def decode(point):
     cfg = {}
     for name in PLAIN:
@@ -77,7 +105,10 @@ class Init:
             point, di = rng.randrange(SPACE), rng.randrange(len(DATES))
         # long files: the unrelated content / the existing section sits behind many kilobytes of other tools' settings
         return {"point": point, "date": di, "vcs": rng.choice([None, None, "git"]), "ops": [{"op": "init-sequence"}],
-                "pad": rng.choice([0, 0, 0, 0, 9000, 70000])}
+                "pad": rng.choice([0, 0, 0, 0, 9000, 70000]),
+                # how an existing section is written: as `init` writes it, uniformly indented (legal in both syntaxes),
+                # `key=value` without blanks, or (TOML) with quoted keys
+                "sect_style": rng.choice(["plain", "plain", "plain", "indented", "tight", "quoted_keys", "tabs"])}
 
     def run(self, case, ctx):
         layout = decode(case["point"])
@@ -103,6 +134,7 @@ class Init:
                 version = "%d.%d" % (2001 + i, 1001 + i)
                 sectioned[name] = version
                 files[name] = section(name, version)
+                files[name] = restyle_section(name, files[name], case.get("sect_style", "plain"))
                 if kind == "section_crlf":
                     # the same section as written by an editor that uses CRLF line endings
                     files[name] = files[name].replace(b"\n", b"\r\n")
